@@ -21,7 +21,7 @@ holds the lock keys of its user keys (a `delete_match` locks every store key it 
 structure TxSetupC (K : List Key) (name : Nat → List Char) (b : Mem) (cmds : List TxCmd) : Prop where
   within : b.Within K
   fits   : K.length ≤ b.cap
-  fitsOv : K.length ≤ 1000
+  fitsOv : K.length ≤ TxSt.overlaySize
   free   : ∀ k, reserved k = true → b.view k = none
   closed : LockClosed K
   cmds   : ∀ c ∈ cmds, CmdOk K name c
